@@ -273,6 +273,12 @@ def check_case(case, ctx):
             seed=gp["seed"],
         )
         env = MultiJobShopGraphEnv(generator, graph_initializer=builder, **kw)
+        if gp["seed"] % 3 == 0:
+            # configuration changed through the public setters after construction
+            from job_shop_lib.dispatching import filter_non_immediate_machines
+
+            env.ready_operations_filter = filter_non_immediate_machines
+            ctx.label("filter_set_via_setter")
         want_filter = env.ready_operations_filter
         first_names = {ft: list(v) for ft, v in env.single_job_shop_graph_env.composite_observer.column_names.items()}
         seen_sizes = set()
